@@ -86,6 +86,8 @@ class CallMixin:
         for kw in node.keywords:
             if kw.arg == 'pattern':
                 pats = [self.ev(kw.value, st2)]
+            if kw.arg == 'alt':          # alternative single-term patterns: any of them triggers
+                pats = list(self.ev(kw.value, st2))
         if not pats:
             # explicit trigger markers T1(k) / T2(r, c) in the body (always-true predicates)
             from .vals import find_triggers
@@ -526,7 +528,11 @@ class CallMixin:
 
     def call_repo(self, name, args, kwargs, node, st):
         finfo = self.program.function(name)
-        c = CONTRACTS.get(name)
+        top = self.frames[0].contract
+        view = getattr(top, 'callee_views', None) or {}
+        c = CONTRACTS.get(view.get(name, name))
+        if name in view:
+            self.notes.add('callee %s summarised by the view contract %s' % (name, view[name]))
         if finfo is None and c is None:
             raise Unsupported('call to unknown function %s (line %s in %s)' % (name, getattr(node, 'lineno', '?'), self.fname))
         if c is not None and not c.inline and not (self.mode == 'run' and finfo is not None):
@@ -580,6 +586,9 @@ class CallMixin:
         try:
             for g, text in c.bind.items():
                 ghost[g] = self.eval_spec(text, cs)
+                if getattr(ghost[g], 'defs', None):
+                    raise Unsupported('callee contract %s binds a named specification context; call sites need '
+                                      'distinct names (not implemented)' % c.name)
             for n_, r in enumerate(c.requires):
                 self.oblige('requires', self.eval_spec(r, cs), st, node,
                             'precondition of %s: %s' % (c.name, r), detail='%s.%d+%d' % (
